@@ -36,7 +36,7 @@ def gen_routing(seed, opts=None):
     auth = None
     if rng.random() < 0.5:
         auth = {'delay': _pick(rng, [(2, 0.0), (1, 0.002), (1, 0.05)]), 'accept_user': 'good', 'accept_token': 'tok-good'}
-    plan = {'exec': 'routing', 'profile': 'routing', 'seed': seed, 'framing': _pick(rng, [(3, 'tcp'), (1, 'ws')]),
+    plan = {'exec': 'routing', 'profile': (opts or {}).get('name', 'routing'), 'seed': seed, 'framing': _pick(rng, [(3, 'tcp'), (1, 'ws')]),
             'loop': {'eps': 0.0}, 'table': table, 'unknown': unknown, 'auth': auth,
             'client': {'fragment': _pick(rng, [(3, None), (1, 64)])}, 'server': {'fragment': _pick(rng, [(3, None), (1, 64)])},
             'link': {'c2s': gen_policy(rng, 0.1), 's2c': gen_policy(rng, 0.1)}, 'nontrivial': True}
@@ -75,6 +75,11 @@ def gen_routing(seed, opts=None):
                      'dlen': rng.randint(8, 200)})
     plan['requests'] = reqs
     plan['horizon'] = 5.0
+    if (opts or {}).get('close'):
+        # route handlers that take their time, and an endpoint that is closed while some of them are still running
+        plan['route_delay'] = _pick(rng, [(1, 0.004), (1, 0.05), (1, 1.0)])
+        plan['close'] = {'who': _pick(rng, [(2, 'server'), (1, 'client')]), 'at': round(0.01 + rng.uniform(0.0, 0.02), 4), 'hops': rng.randint(0, 4)}
+        plan['horizon'] = 5.0 + 10 * plan['route_delay']  # the receiver works through its backlog one (slow) handler at a time
     return plan
 
 
@@ -150,6 +155,8 @@ def _make_route_fn(world, t, name, sig):
         iid = _find_tag(payload, cm)
         world.rec('route', type=t, route=name, iid=iid, sig=sig,
                   got={k: type(v).__name__ for k, v in got.items()})
+        if world.plan.get('route_delay'):
+            await asyncio.sleep(world.plan['route_delay'])
         if t == 'response':
             return Payload(app.content(iid if iid is not None else 99, 'r', 0, 'D', 20), None)
         if t == 'stream':
@@ -325,6 +332,24 @@ def _run(world, plan):
     for rq in plan['requests']:
         loop.call_at(0.01 + rq['at'], issue, rq)
 
+    if plan.get('close'):
+        cl = plan['close']
+
+        def do_close():
+            world.rec('fault', what='close', who=cl['who'])
+            world.fault_fired('close')
+
+            async def run():
+                try:
+                    await world.endpoints[cl['who']].close()
+                except Exception as e:
+                    world.rec('log', level='HARNESS', msg='close raised %r' % (e,), exc=None)
+                world.rec('act', ep=cl['who'], what='close_returned')
+
+            loop.create_task(run())
+
+        loop.call_at(cl['at'], lambda: loop.call_after_hops(cl.get('hops', 0), do_close))
+
     loop.run_sim(until_time=plan['horizon'])
     world.rec('mark', what='settled')
     for name in ('client', 'server'):
@@ -424,4 +449,47 @@ def oracle_c08_routing(world):
             V('type_not_allowed', '%s from the responder on stream %d, which is a fire-and-forget' % (f['type'], f['sid']), e['seq'],
               type=f['type'], kind='fnf', role='responder', routed=True, auth_configured=bool(plan.get('auth')))
             break
+    return out
+
+
+def oracle_c11_routing(world):
+    """C11 with the routing handler in the way: close() while routed handlers are still running returns, the close
+    notification is delivered once, the endpoint's tasks end and nothing the client asked for is left hanging."""
+    out = []
+    V = lambda cls, msg, seq=None, **f: out.append(Violation('C11', 'C11.' + cls, msg, seq, **f))
+    plan = world.plan
+    cl = plan.get('close')
+    if not cl:
+        return out
+    h = world.history
+    mark = next((e['seq'] for e in h if e['k'] == 'mark'), float('inf'))
+    who = cl['who']
+    facts = dict(ep=who, cause='close', framing=plan.get('framing', 'tcp'), routed=True)
+    f = next((e for e in h if e['k'] == 'fault' and e.get('what') == 'close'), None)
+    if f is None:
+        return out
+    if not [e for e in h if e['k'] == 'act' and e.get('what') == 'close_returned' and e['seq'] < mark]:
+        V('close_did_not_return', '%s.close() called while routed handlers were running never returned' % who, f['seq'], **facts)
+    for ep in ('client', 'server'):
+        closes = [e for e in h if e['k'] == 'hnd' and e.get('ep') == ep and e.get('method') == 'on_close' and e['seq'] < mark]
+        if not closes:
+            V('close_not_notified', '%s: on_close not delivered after %s closed the connection' % (ep, who), None, **dict(facts, ep=ep))
+    fin = [e for e in h if e['k'] == 'final']
+    for e in fin:
+        pend = [k for k, v in e['tasks'].items() if v == 'pending']
+        if pend:
+            V('tasks_alive', '%s: %s still running after close()' % (e['ep'], pend), e['seq'], tasks=','.join(pend), **dict(facts, ep=e['ep']))
+    # requests of the client issued before the close are not left hanging
+    for rq in plan['requests']:
+        kind = KIND_OF[rq['type']]
+        iid = rq['id']
+        act = next((e for e in h if e['k'] == 'act' and e.get('what') == 'request' and e.get('iid') == iid), None)
+        if act is None or act['seq'] > f['seq']:
+            continue
+        if kind == 'rr' and not [e for e in h if e['k'] == 'fut' and e.get('iid') == iid and e['seq'] < mark]:
+            V('request_left_hanging', 'routed request-response %d still pending after close()' % iid, None, kind='rr', **facts)
+        elif kind in ('stream', 'channel'):
+            evs = [e for e in h if e['k'] == 'sub' and e.get('iid') == iid and e['seq'] < mark]
+            if evs and not [e for e in evs if e['cb'] in ('on_complete', 'on_error') or (e['cb'] == 'on_next' and e.get('complete'))]:
+                V('subscriber_left_hanging', 'routed %s %d got no terminal signal after close()' % (kind, iid), None, kind=kind, **facts)
     return out
